@@ -85,7 +85,9 @@ def run(ctx):
         ok = bool(tcalls) and set(tcalls) <= COMPONENT_AWARE and not any(isinstance(x, (ast.Subscript,)) for x in ast.walk(ifs[0].test))
     ctx.check("named-dirs-all-walked", wg, ok, "a named directory is left out of the walk only when a component-aware containment test (osutils.is_inside*) says it lies inside the previously yielded one", construct=detail, message=f"the containment test that drops a named directory from the walk is not component-aware ({detail}): with a string prefix test `dir2` counts as inside `dir` and is never added")
     ys = [n for n in walk_own(fgd) if isinstance(n, ast.Yield)]
-    ctx.check("named-dirs-all-walked", wg, len(ys) == 1 and norm(ys[0].value).startswith("(path, inv_path, this_ie"), "what is yielded is the named directory's own entry")
+    _lt = loop_targets(fgd, lambda t, n: t == "sorted(user_dirs)")
+    _ub = [b for b in bound_names(fgd, lambda t, n: bool(_lt) and t == f"user_dirs[{_lt[0][0]}]") if isinstance(b, tuple) and len(b) == 2]
+    ctx.check("named-dirs-all-walked", wg, len(ys) == 1 and len(_lt) == 1 and len(_ub) == 1 and norm(ys[0].value) == f"({_lt[0][0]}, {_ub[0][0]}, {_ub[0][1]}, None)", "what is yielded is the named directory's own entry")
 
     # ---------------- git --------------------------------------------------------------
     fn = repo.func(GW, "GitWorkingTree.smart_add")
